@@ -51,13 +51,19 @@ class MultivariateNormal(TMultivariateNormal, Distribution):
                 cs2 = covariance_matrix.size(-2)
                 if not (ms == cs1 and ms == cs2):
                     raise ValueError(f"Wrong shapes in {self._repr_sizes(mean, covariance_matrix)}")
+            batch_shape = torch.broadcast_shapes(mean.shape[:-1], covariance_matrix.shape[:-2])
+            event_shape = mean.shape[-1:]
+            # Mean and covariance may have different (broadcastable) batch shapes. Expand both to the
+            # distribution's batch shape (as torch.distributions.MultivariateNormal does for dense arguments),
+            # so that log_prob, rsample, __getitem__, ... see consistent shapes.
+            if mean.shape[:-1] != batch_shape:
+                mean = mean.expand(*batch_shape, *event_shape)
+            if covariance_matrix.shape[:-2] != batch_shape:
+                covariance_matrix = covariance_matrix.expand(*batch_shape, *covariance_matrix.shape[-2:])
             self.loc = mean
             self._covar = covariance_matrix
             self.__unbroadcasted_scale_tril = None
             self._validate_args = validate_args
-            batch_shape = torch.broadcast_shapes(self.loc.shape[:-1], covariance_matrix.shape[:-2])
-
-            event_shape = self.loc.shape[-1:]
 
             # TODO: Integrate argument validation for LinearOperators into torch.distribution validation logic
             super(TMultivariateNormal, self).__init__(batch_shape, event_shape, validate_args=False)
